@@ -113,6 +113,10 @@ type Solver struct {
 	totalS   float64
 	queries  int
 	noBatch  bool
+	// thorough tier: every unsat answer is re-asked of a different solver; agreement / no-answer / DISAGREEMENT are counted
+	crossCheck            bool
+	crossAgree, crossNone int
+	crossDisagree         []string
 }
 
 func newSolver(outDir string, quickT, longT int) *Solver {
@@ -163,6 +167,26 @@ func (sv *Solver) solve(name, script string, modelTerms []string, wantSat bool) 
 	sv.mu.Lock()
 	sv.byBackend[res.Solver+":"+res.Answer]++
 	sv.mu.Unlock()
+	if sv.crossCheck && !wantSat && res.Answer == "unsat" {
+		var others []solverSpec
+		for _, sp := range solvers {
+			if sp.name != res.Solver {
+				others = append(others, sp)
+			}
+		}
+		second, all := race(others, file, sv.quickT)
+		record(all)
+		sv.mu.Lock()
+		switch second.answer {
+		case "unsat":
+			sv.crossAgree++
+		case "sat":
+			sv.crossDisagree = append(sv.crossDisagree, fmt.Sprintf("%s: %s says unsat, %s says sat", name, res.Solver, second.name))
+		default:
+			sv.crossNone++
+		}
+		sv.mu.Unlock()
+	}
 	if res.Answer == "sat" && !wantSat && len(modelTerms) > 0 {
 		res.Model = sv.getModel(file, script, modelTerms)
 	}
